@@ -628,6 +628,9 @@ def rule_finite(ctx):
 
 def run(ctx):
     from ..report import SubCtx
+    from . import c12
+    sub_c12 = SubCtx(ctx, 'C08.map', 'a tempo change while the clock thread sleeps moves every pending deadline: the re-basing of the beats/seconds map (pivot at the current position, notify), as decided for C12')
+    c12.rule_rebase(sub_c12)
     from . import c09
     sub = SubCtx(ctx, 'C08.queue', 'every clock wakes its tasks in queue order: the priority-queue contract of the task queue, as decided for C09')
     c09.rule_inv(sub)
